@@ -26,10 +26,10 @@ SWITCHES = list(itertools.product((True, False), repeat=3))  # headers, inputs, 
 NUM = re.compile(r"^-?\d+\.\d+$|^nan$|^-?inf$")
 
 
-def build(n: int, disabled_last: bool = False, descending: bool = False):
+def build(n: int, disabled_last: bool = False, descending: bool = False, edited: bool = False, ranges=None):
     inputs = []
     for k in range(n):
-        lo, hi = RANGES[k]
+        lo, hi = (ranges or RANGES)[k]
         m = (lo + hi) / 2
         inputs.append(fl.InputVariable(f"i{k + 1}", minimum=lo, maximum=hi,
                                        terms=[fl.Triangle("lo", lo, lo, hi), fl.Triangle("hi", lo, hi, hi),
@@ -44,6 +44,9 @@ def build(n: int, disabled_last: bool = False, descending: bool = False):
     rules = [f"if {ante_lo} then o1 is a", f"if {ante_hi} then o1 is b and o2 is b", "if i1 is mid then o1 is c and o2 is a"]
     rb = fl.RuleBlock("rb", conjunction=fl.AlgebraicProduct(), disjunction=fl.Maximum(), implication=fl.Minimum(),
                       activation=fl.General(), rules=[fl.Rule.create(r) for r in rules])
+    if edited:  # the first term of the first input has another shape (same name)
+        lo, hi = (ranges or RANGES)[0]
+        inputs[0].terms[0] = fl.Ramp("lo", lo, hi)
     if descending:
         for iv in inputs[::2]:  # every other input runs from a larger minimum down to a smaller maximum
             iv.minimum, iv.maximum = iv.maximum, iv.minimum
@@ -67,6 +70,7 @@ def plan(tier: str, seed: int):
     shards += [("reader", 2, p, 4) for p in range(4)]
     shards += [("scope-disabled", n, p, 2) for n in (2, 3) for p in range(2)]
     shards += [("scope-descending", n, p, 2) for n in (1, 2, 3) for p in range(2)]
+    shards += [("scope-fine", 1, 0, 1), ("scope-edited", 2, 0, 1)]
     return shards
 
 
@@ -118,9 +122,13 @@ def compare(acc: Acc, case, text: str, want_lines, sep: str, d: int, n_rows: int
         header = bool(wt) and not NUM.match(wt[0])
         ok = len(gt) == len(wt) and not header
         if ok:
-            for a, b in zip(gt, wt):
+            n_exact = case.get("inputs_n", 0) if case.get("input_values", True) else 0
+            for col, (a, b) in enumerate(zip(gt, wt)):
                 if a == b:
                     continue
+                if col < n_exact and "reader" not in case:
+                    ok = False  # an input cell is a grid point: its numeral is determined exactly (no rounding slack)
+                    break
                 if not (NUM.match(a) and len(a.split(".")[-1]) == d and abs(float(a) - float(b)) <= 1.0000001 * 10.0**-d):
                     ok = False
                     break
@@ -132,7 +140,7 @@ def compare(acc: Acc, case, text: str, want_lines, sep: str, d: int, n_rows: int
             return
 
 
-def run_scope(acc: Acc, engine, oracle: Oracle, n: int, v: int, scope: str, combos) -> None:
+def run_scope(acc: Acc, engine, oracle: Oracle, n: int, v: int, scope: str, combos, extra: dict | None = None) -> None:
     ranges = [(iv.minimum, iv.maximum) for iv in engine.input_variables]
     rows = R.grid(ranges, v, scope)
     outs = oracle.table(rows)
@@ -144,7 +152,7 @@ def run_scope(acc: Acc, engine, oracle: Oracle, n: int, v: int, scope: str, comb
         case = {"inputs_n": n, "values": v, "scope": scope, "headers": headers, "input_values": inputs,
                 "output_values": outputs, "separator": sep, "decimals": d,
                 "disabled_last_input": not engine.input_variables[-1].enabled,
-                "descending": engine.input_variables[0].minimum > engine.input_variables[0].maximum}
+                "descending": engine.input_variables[0].minimum > engine.input_variables[0].maximum, **(extra or {})}
         acc.case((n, v, scope, headers, inputs, outputs, sep, d), nontrivial=len(rows) > 1)
         acc.transitions += 1
         exporter = fl.FldExporter(separator=sep, headers=headers, input_values=inputs, output_values=outputs)
@@ -186,24 +194,26 @@ def combos_for(v: int, idx: int):
 
 
 READER_ALPHABET = ["ROW", "", "# a comment", "   ROW", "   # indented comment"]
+READER_ALPHABET_WIDE = READER_ALPHABET + ["ROWTAB", "ROW3"]  # values separated by a tab / by three blanks
 
 
-def run_reader(acc: Acc, engine, oracle: Oracle, symbols, skip: int) -> None:
+def run_reader(acc: Acc, engine, oracle: Oracle, symbols, skip: int, sep: str = " ") -> None:
     lines, k = [], 0
     for s in symbols:
         if "ROW" in s:
             k += 1
             vals = [0.125 * k, 1.0 - 0.25 * k]
-            lines.append(s.replace("ROW", " ".join(f"{x:.3f}" for x in vals)))
+            gap = "\t" if "ROWTAB" in s else ("   " if "ROW3" in s else " ")
+            lines.append(s.replace("ROWTAB", "ROW").replace("ROW3", "ROW").replace("ROW", gap.join(f"{x:.3f}" for x in vals)))
         else:
             lines.append(s)
     content = "\n".join(lines) + ("\n" if lines else "")
     rows = R.reader_rows(lines, skip)
-    case = {"reader": lines, "skip_lines": skip}
-    acc.case((symbols, skip), nontrivial=len(rows) >= 1)
+    case = {"reader": lines, "skip_lines": skip, "separator": sep}
+    acc.case((symbols, skip, sep), nontrivial=len(rows) >= 1)
     acc.transitions += 1
     try:
-        text = fl.FldExporter().to_string_from_reader(engine, io.StringIO(content), skip)
+        text = (fl.FldExporter() if sep == " " else fl.FldExporter(separator=sep)).to_string_from_reader(engine, io.StringIO(content), skip)
     except ValueError as ex:
         if rows:
             acc.violate("reader-raises", {}, case, f"{len(rows)} rows", repr(ex), f"reader export raised {ex!r}")
@@ -212,8 +222,8 @@ def run_reader(acc: Acc, engine, oracle: Oracle, symbols, skip: int) -> None:
         return
     outs = oracle.table(rows)
     acc.traces += 1
-    want = expected_text(engine, rows, outs, True, True, True, " ", 3)
-    compare(acc, case, text, want, " ", 3, len(rows))
+    want = expected_text(engine, rows, outs, True, True, True, sep, 3)
+    compare(acc, case, text, want, sep, 3, len(rows))
     acc.cls("reader_rows_%d" % min(len(rows), 3))
 
 
@@ -221,6 +231,28 @@ def run_shard(tier: str, seed: int, shard):
     kind, n, part, parts = shard
     acc = Acc(ID)
     reset_settings()
+    if kind == "scope-fine":
+        # grid steps that end in 5 one digit below the printed precision: every cell is the correctly rounded decimal
+        for rng, v, d in (((0.0, 0.01), 5, 3), ((0.0, 1.0), 201, 2), ((0.0, 0.1), 41, 3), ((-1.0, 1.0), 401, 2)):
+            engine = build(1, ranges=[rng])
+            oracle = Oracle(engine)
+            for scope in ("EachVariable", "AllVariables"):
+                acc.guard({"inputs_n": 1, "values": v, "scope": scope, "fine": [list(rng), d]}, run_scope, acc, engine, oracle, 1, v, scope,
+                          [((True, True, True), " ", d)], {"fine": [list(rng), d]})
+                acc.cls("fine_grids")
+        reset_settings()
+        return acc.result()
+    if kind == "scope-edited":
+        # a term object replaced AFTER the rules were loaded: the dataset is what the engine (with the new term) produces
+        engine = build(n)
+        lo, hi = RANGES[0]
+        engine.input_variables[0].terms[0] = fl.Ramp("lo", lo, hi)
+        oracle = Oracle(build(n, edited=True))
+        for v, scope in ((1, "AllVariables"), (9, "AllVariables"), (25, "AllVariables"), (3, "EachVariable"), (5, "EachVariable")):
+            acc.guard({"inputs_n": n, "values": v, "scope": scope, "edited": True}, run_scope, acc, engine, oracle, n, v, scope, combos_for(v, 0)[:1], {"edited": True})
+            acc.cls("edited_engines")
+        reset_settings()
+        return acc.result()
     engine = build(n, disabled_last=(kind == "scope-disabled"), descending=(kind == "scope-descending"))
     oracle = Oracle(engine)
     if kind == "scope-descending":
@@ -254,6 +286,17 @@ def run_shard(tier: str, seed: int, shard):
                     if idx % parts != part:
                         continue
                     acc.guard({"reader": list(symbols), "skip_lines": skip}, run_reader, acc, engine, oracle, symbols, skip)
+        # rows whose values are separated by a tab / several blanks, and exporters with another column separator
+        for L in range(1, 4):
+            for symbols in itertools.product(READER_ALPHABET_WIDE, repeat=L):
+                if not any(x in ("ROWTAB", "ROW3") for x in symbols):
+                    continue
+                idx += 1
+                if idx % parts != part:
+                    continue
+                sep = SEPARATORS[idx % len(SEPARATORS)]
+                acc.guard({"reader": list(symbols), "skip_lines": 0, "separator": sep}, run_reader, acc, engine, oracle, symbols, 0, sep)
+                acc.cls("reader_wide")
     reset_settings()
     return acc.result()
 
@@ -284,10 +327,22 @@ def replay(case: dict):
         engine = build(2)
         syms = []
         for line in case["reader"]:
-            syms.append(re.sub(r"-?\d+\.\d+ -?\d+\.\d+", "ROW", line))
-        acc.guard(case, run_reader, acc, engine, Oracle(engine), tuple(syms), case["skip_lines"])
+            syms.append(re.sub(r"-?\d+\.\d+(\t| {3}| )-?\d+\.\d+", lambda m: {"\t": "ROWTAB", "   ": "ROW3", " ": "ROW"}[m.group(1)], line))
+        acc.guard(case, run_reader, acc, engine, Oracle(engine), tuple(syms), case["skip_lines"], case.get("separator", " "))
     else:
         n = case["inputs_n"]
+        if case.get("fine"):
+            engine = build(1, ranges=[tuple(case["fine"][0])])
+            acc.guard(case, run_scope, acc, engine, Oracle(engine), 1, case["values"], case["scope"], [((True, True, True), " ", case["fine"][1])], {"fine": case["fine"]})
+            reset_settings()
+            return acc.violations
+        if case.get("edited"):
+            engine = build(n)
+            lo, hi = RANGES[0]
+            engine.input_variables[0].terms[0] = fl.Ramp("lo", lo, hi)
+            acc.guard(case, run_scope, acc, engine, Oracle(build(n, edited=True)), n, case["values"], case["scope"], combos_for(case["values"], 0)[:1], {"edited": True})
+            reset_settings()
+            return acc.violations
         engine = build(n, disabled_last=bool(case.get("disabled_last_input")), descending=bool(case.get("descending")))
         combo = [((case.get("headers", True), case.get("input_values", True), case.get("output_values", True)),
                   case.get("separator", " "), case.get("decimals", 3))]
